@@ -42,6 +42,10 @@ def run(tier):
                for i, (p, b, a) in enumerate((p, b, a) for p in ("frost-keygen", "frost-refresh", "taproot-keygen", "taproot-refresh")
                                              for b in ("a", "b", "c")
                                              for a in ("plus", "minus", "eval0", "eval0-empty", "evalk", "evalk-empty"))]
+    # the same for CMP: the polynomial a party deals is replaced at start, so that its commitment, shares and proofs agree with it
+    dealers += [{"kind": "dealercheat", "proto": pr, "n": 3, "t": 1, "byz": b, "alt": a, "sched": vlib.seed() * 5 + 100 + i}
+                for i, (pr, b, a) in enumerate((pr, b, a) for pr in ("cmp-keygen", "cmp-refresh") for b in ("a", "b", "c")
+                                               for a in ("plus", "minus", "nonzero") if not (pr == "cmp-keygen" and a == "nonzero"))]
     st = adv.run_family(rep, wd, plan(quick), PROP, vlib.seed(), {"C03"}, shards=14, extra_scen=dealers)
     rep.cov.update({"distinct_nontrivial": st["distinct"], "states": st["states"], "transitions": st["transitions"],
                     "traces_validated_against_impl": st["traces"], "trace_lines": st["lines"], "catalogue_cases": st["catalogue"],
